@@ -16,7 +16,9 @@ State of the clauses of the property text (CKKS sentence)
     (`special_dft_decode_encode`, `special_dft_encode_decode`: any field with a primitive `2N`-th root; sparse packing
     `special_dft_sparse`; the conjugate-invariant ring is the case `2N` with a `4N`-th root); the slots sit at pairwise
     distinct odd exponents (`orbit_injective`, `rotGroup_nodup`, `conj_exponents_disjoint`, `bitRev_perm`);
-  - rounding part, PROVED: `fixedpoint_roundtrip` (exact rationals, `≤ 1/(2Δ)` per coefficient), `fixedPoint_error`
+  - rounding part, PROVED: `fixedpoint_roundtrip` (exact rationals, `≤ 1/(2Δ)` per coefficient), `fixedPoint_exact` (equal to round-half-away(x·Δ) whenever the working
+    precision holds the product: boundary magnitudes 2^52…2^100 tied on every path), `singleFloat64_eq_fixedPoint`,
+    `fixedPoint_error`
     (the conversion AS PERFORMED with `P`-bit floats — the function the driver executes: `1/2 + 3·2^-P(|x|Δ+1)`),
     `slot_error_of_coeff_error` (coefficient error `B` ⇒ slot error `≤ N·B`), `encode_slot_error` (their composition);
   - NOT modelled: the butterfly network of `SpecialFFT/IFFT*` and its floating-point error (the exact transform above
@@ -108,6 +110,27 @@ theorem roundHalfAway_tie (h : ℤ) : roundHalfAway (2 * h + 1) 2 = if 0 ≤ 2 *
   Lattigo.EncoderC.roundHalfAway_tie h
 example : roundToPrec (-3) 8 2 = -2 ∧ roundToPrec 3 8 2 = 2 ∧ roundToPrec (-23) 10 0 = -2 := by decide
 
+/-- **Exactness**: when the working precision holds `|x|·Δ` and `|x|·Δ + 1/2`, the integer the code writes is exactly
+    the round-half-away-from-zero of `x·Δ` (`n ≤ |x|Δ + 1/2 < n + 1`, sign of `x`); its residues are
+    `fixedPointRNS = (±n) mod q_i` by definition and the centred lift returns `±n` for `n < Q/2` (`centerLift_roundtrip`). -/
+theorem fixedPoint_exact (P : ℕ) (x : Lattigo.CKKS.SD) (scale : Lattigo.CKKS.Dy) (hx : 0 < x.mag.m) (hs : 0 < scale.m)
+    (h1 : Lattigo.CKKS.bitLen (x.mag.m * scale.m) ≤ P)
+    (h2 : Lattigo.CKKS.bitLen (Lattigo.CKKS.addHalf (Lattigo.CKKS.Dy.mul P x.mag scale)).m ≤ P) :
+    ∃ n : ℕ, Lattigo.CKKS.fixedPoint P x scale = (if x.neg then -(n : ℤ) else (n : ℤ)) ∧
+      (n : ℚ) ≤ x.mag.val * scale.val + 1 / 2 ∧ x.mag.val * scale.val + 1 / 2 < n + 1 :=
+  Lattigo.CKKS.fixedPoint_exact P x scale hx hs h1 h2
+/-- instance at the word boundary: `x = −2^19`, `Δ = 2^45` (`|x|Δ = 2^64`), 128-bit path: hypotheses hold, result `−2^64`. -/
+example : Lattigo.CKKS.bitLen ((⟨true, ⟨1, 19⟩⟩ : Lattigo.CKKS.SD).mag.m * (⟨1, 45⟩ : Lattigo.CKKS.Dy).m) ≤ 128 ∧
+    Lattigo.CKKS.bitLen (Lattigo.CKKS.addHalf (Lattigo.CKKS.Dy.mul 128 ⟨1, 19⟩ ⟨1, 45⟩)).m ≤ 128 ∧
+    Lattigo.CKKS.fixedPoint 128 ⟨true, ⟨1, 19⟩⟩ ⟨1, 45⟩ = -(2 ^ 64 : ℤ) ∧
+    singleFloat64 ⟨false, ⟨1, 19⟩⟩ ⟨1, 45⟩ = (2 ^ 64 : ℤ) := by decide +kernel
+/-- the float64 conversion (`SingleFloat64ToFixedPointCRT`, both branches around `2^64`) is `fixedPoint 53`. -/
+theorem singleFloat64_eq_fixedPoint (x : Lattigo.CKKS.SD) (scale : Lattigo.CKKS.Dy) :
+    singleFloat64 x scale = Lattigo.CKKS.fixedPoint 53 x scale :=
+  Lattigo.CKKS.singleFloat64_eq_fixedPoint_aux x scale
+theorem fixedPointRNS_residues (P : ℕ) (x : Lattigo.CKKS.SD) (scale : Lattigo.CKKS.Dy) (qs : List ℕ) :
+    fixedPointRNS P x scale qs = qs.map (fun (q : ℕ) => (Lattigo.CKKS.fixedPoint P x scale % (q : ℤ)).toNat) := rfl
+
 /-- the rounding is to nearest, half away from zero (`trunc(x ± 1/2)`). -/
 theorem roundHalfAway_nearest (num : ℤ) (den : ℕ) (hd : 0 < den) :
     |(roundHalfAway num den : ℚ) - (num : ℚ) / den| ≤ 1 / 2 := roundHalfAway_spec num den hd
@@ -167,3 +190,6 @@ end Lattigo.Props.C07CKKS
 #print axioms Lattigo.Props.C07CKKS.conj_exponents_disjoint
 #print axioms Lattigo.Props.C07CKKS.decodePublic_nearest
 #print axioms Lattigo.Props.C07CKKS.roundHalfAway_tie
+#print axioms Lattigo.Props.C07CKKS.fixedPoint_exact
+#print axioms Lattigo.Props.C07CKKS.singleFloat64_eq_fixedPoint
+#print axioms Lattigo.Props.C07CKKS.fixedPointRNS_residues
